@@ -170,6 +170,34 @@ fn gen_hostile(rng: &mut Rng) -> Case {
     Case { q, frames, sent: vec![], kind: "hostile" }
 }
 
+/// honest packets needing many frames (up to MAX_FRAMES): one chosen frame is withheld until
+/// the end (or lost), the rest delivered in order, reversed or shuffled.  Exercises every
+/// word/bit position of the receive mask.
+fn gen_many(rng: &mut Rng) -> Case {
+    let mtu = *rng.pick(&[MIN_MTU, MIN_MTU, MIN_MTU + 1, 300]);
+    let psz = mtu - 16;
+    let maxn = (65535 / psz).min(256);
+    let n = match rng.below(4) { 0 => maxn, 1 => rng.range(129, maxn as u64) as usize, 2 => 129, _ => rng.range(2, maxn as u64) as usize };
+    let tail = rng.range(1, psz as u64) as usize;
+    let len = ((n - 1) * psz + tail).min(65535);
+    let data: Vec<u8> = (0..len).map(|i| ((i / psz) % 251) as u8 + 1).collect();
+    // an earlier packet leaves recognisable bytes (0xEE) in the slot
+    let prev = vec![0xEEu8; len.min(40000)];
+    let (pp, mut sent) = honest_frames(mtu, 0, &[prev, data]);
+    let mut frames: Vec<Frame> = pp[0].clone();
+    let mut cur: Vec<Frame> = pp[1].clone();
+    let nf = cur.len();
+    let special = [0usize, 1, 63, 64, 126, 127, 128, 129, 191, 192, 254, 255];
+    let w = if rng.chance(3, 4) { *rng.pick(&special) } else { rng.below(nf as u64) as usize };
+    let w = w.min(nf - 1);
+    let held = cur.remove(w);
+    match rng.below(3) { 0 => {}, 1 => cur.reverse(), _ => rng.shuffle(&mut cur) }
+    frames.extend(cur);
+    if rng.chance(2, 3) { frames.push(held); }
+    sent.truncate(2);
+    Case { q: 1, frames, sent, kind: "many" }
+}
+
 /// directed schedules around the completion test (the property's own example and relatives)
 fn gen_directed(rng: &mut Rng) -> Case {
     let w = *rng.pick(&[MIN_PAYLOAD_SIZE, 300usize]);
@@ -201,11 +229,11 @@ fn main() {
     let seed = seed_from_env();
     let mut rng = Rng::new(seed);
     let pre = "From Sci Require Import Defrag.Cases. Open Scope N_scope.";
-    let mut sh = Shards::new(&out, pre, "dcase", "verdicts", 40);
+    let mut sh = Shards::new(&out, pre, "dcase", "verdicts", 30);
     let mut sum = Summary::default();
     let mut seen = std::collections::HashSet::new();
     for i in 0..n {
-        let c = match i % 10 { 0..=4 => gen_honest(&mut rng), 5..=7 => gen_hostile(&mut rng), _ => gen_directed(&mut rng) };
+        let c = match i % 20 { 0..=8 => gen_honest(&mut rng), 9 => gen_many(&mut rng), 10..=15 => gen_hostile(&mut rng), _ => gen_directed(&mut rng) };
         let res = run_impl(c.q, &c.frames);
         sum.count(&format!("kind.{}", c.kind));
         sum.add("frames", c.frames.len() as u64);
